@@ -152,8 +152,56 @@ func (p *pkg) lookupType(name string) (Type, bool) {
 	if t, ok := basic[name]; ok {
 		return t, true
 	}
-	t, ok := p.named[name]
-	return t, ok
+	if t, ok := p.named[name]; ok {
+		return t, true
+	}
+	// a qualified name `alias.T` of another package of the module (e.g. `pk.VarInt`): its named integer types
+	// are read from that package's type declarations (loaded on first use)
+	if i := strings.IndexByte(name, '.'); i > 0 && p.repo != "" {
+		if dir, ok := p.importDir(name[:i]); ok {
+			if q, err := loadPkgCached(p.repo, dir); err == nil {
+				if t, ok := q.named[name[i+1:]]; ok {
+					return t, true
+				}
+			}
+		}
+	}
+	return Type{}, false
+}
+
+const modulePath = "github.com/Tnze/go-mc/"
+
+// importDir: the module-relative directory a file of this package imports under the given name.
+func (p *pkg) importDir(alias string) (string, bool) {
+	for _, f := range p.files {
+		for _, im := range f.Imports {
+			path := strings.Trim(im.Path.Value, "\"")
+			if !strings.HasPrefix(path, modulePath) {
+				continue
+			}
+			name := path[strings.LastIndexByte(path, '/')+1:]
+			if im.Name != nil {
+				name = im.Name.Name
+			}
+			if name == alias {
+				return strings.TrimPrefix(path, modulePath), true
+			}
+		}
+	}
+	return "", false
+}
+
+var pkgCache = map[string]*pkg{}
+
+func loadPkgCached(repo, dir string) (*pkg, error) {
+	if q, ok := pkgCache[dir]; ok {
+		return q, nil
+	}
+	q, err := loadPkg(repo, dir)
+	if err == nil {
+		pkgCache[dir] = q
+	}
+	return q, err
 }
 
 func exprText(fset *token.FileSet, e ast.Node) string {
